@@ -141,6 +141,7 @@ pub struct Profile {
     pub perm_salt: u64,
     /// percentage of commits during which one storage write is made to fail
     pub fault_pct: usize,
+    pub self_meld: bool,
 }
 
 pub fn profile(name: &str) -> Profile {
@@ -162,6 +163,7 @@ pub fn profile(name: &str) -> Profile {
         cap_shift: 0,
         perm_salt: 0,
         fault_pct: 6,
+        self_meld: false,
     };
     match name {
         "general" => {}
@@ -206,6 +208,7 @@ pub fn profile(name: &str) -> Profile {
             // C08 / C18: every public method in every state
             p.w = [22, 14, 14, 4, 5, 5, 5, 8, 5, 5, 6, 3, 4, 6, 3];
             p.doc.id_pool = 7;
+            p.self_meld = true;
         }
         "long" => {
             // long per-object histories: revision indices cross 9 -> 10 (numeric vs textual order)
@@ -1021,6 +1024,32 @@ impl World {
 
     fn do_meld(&mut self, i: usize) -> bool {
         let n = self.reps.len();
+        if self.prof.self_meld && self.r.chance(4) {
+            // a replica melded into itself: nothing to learn, must simply return
+            let before = self.reps[i].cur.clone();
+            self.t(format!("r{}.meld(r{})", i, i));
+            let m = &self.reps[i].m;
+            let res = guard(|| m.meld(m));
+            self.res.feat_add("self_melds", 1);
+            match res {
+                Outcome::Ok(items) => {
+                    if !items.is_empty() {
+                        self.res.viol("C11", "self-meld-wrote-items", format!("{:?}", items));
+                    }
+                }
+                Outcome::Err(e) => self.res.viol("C08", "self-meld-returned-error", e),
+                Outcome::Panic(p) => {
+                    self.panic_viol("C08", "self-meld", &p);
+                    self.reps[i].dead = true;
+                    return false;
+                }
+            }
+            let after = observe(&self.reps[i].m);
+            if after.s_value(true) != before.s_value(true) {
+                self.res.viol("C12", "meld-changes-state", before.diff(&after));
+            }
+            return false;
+        }
         let j = (i + 1 + self.r.below(n - 1)) % n;
         if self.reps[j].dead {
             return false;
